@@ -1,12 +1,18 @@
 import CnlProofs.Static
 import CnlProofs.OverflowFloat
+import CnlModel.Wide
 /-!
 # C11 — static_integer and static_number are never silently wrong
 
 Theorems about the executable composition model `CnlModel/Static.lean` (+ the history evaluator
 `CnlModel/StaticExpr.lean`), which is validated against the real `static_number` by the `C11`
 correspondence table (operators, comparisons, conversions, two-step histories).  They hold for **all**
-digit counts, exponents, rounding tags and overflow tags.
+digit counts, exponents, rounding tags and overflow tags.  Sections 1–6 are the instances for `Narrowest = int`
+(now for every digit count: beyond 127 digits the storage is the multi-word two's-complement integer of C10, so an
+instantiation is ill-formed only when the native overflow tag would have to react); section 7 states the per-node
+theorems for **every narrowest type** (signed / unsigned, any width — `TNum`), for multi-word storage, and for a
+static number combined with a **built-in integer** on either side (`Opnd`), with the hypotheses they need and a
+witness for each hypothesis.
 
 * "in range" is `SNum.InRange`: `|value| ≤ 2^digits − 1`, the declared range of the type.
 * "well-formed" is the hypothesis `∀ m, f … ≠ .ill m`: the model returns `.ill` exactly when a storage
@@ -99,15 +105,15 @@ example : Static.binOp ⟨.tpi, .thr⟩ .mul ⟨63, -10, 9223372036854775807⟩ 
     = .ok ⟨126, -7, -85070591730234615847396907784232501249⟩ := by decide
 example : Static.binOp ⟨.ninf, .trp⟩ .sub ⟨31, 0, -2147483647⟩ ⟨31, 0, 2147483647⟩ = .ok ⟨32, 0, -4294967294⟩ := by
   decide
--- the hypotheses are satisfiable at the limits; beyond the widest storage the instantiation is ill-formed
+-- the hypotheses are satisfiable at the limits; beyond the widest built-in the storage is multi-word (C10)
 example : (⟨63, -10, 9223372036854775807⟩ : SNum).InRange ∧
     (∀ m, Static.binOp ⟨.tpi, .thr⟩ .mul ⟨63, -10, 9223372036854775807⟩ ⟨63, 3, -9223372036854775807⟩ ≠ .ill m) := by
   refine ⟨by decide, fun m h => ?_⟩
   have e : Static.binOp ⟨.tpi, .thr⟩ .mul ⟨63, -10, 9223372036854775807⟩ ⟨63, 3, -9223372036854775807⟩
       = .ok ⟨126, -7, -85070591730234615847396907784232501249⟩ := by decide
   rw [e] at h; cases h
-example : Static.binOp ⟨.nrst, .sat⟩ .mul ⟨64, 0, 5⟩ ⟨64, 0, 5⟩ = .ill "result digits exceed the widest integer" := by
-  decide
+example : Static.binOp ⟨.nrst, .sat⟩ .mul ⟨64, 0, 18446744073709551615⟩ ⟨64, 0, 18446744073709551615⟩
+    = .ok ⟨128, 0, 340282366920938463426481119284349108225⟩ := by decide
 
 /-! ## 2. `/` is the correctly rounded quotient -/
 
@@ -575,6 +581,237 @@ example : evalModel ⟨.tpi, .thr⟩ (.add (.shlN 2 (.lit ⟨8, -3, 100⟩)) (.s
     SideOK ⟨.tpi, .thr⟩ (.add (.shlN 2 (.lit ⟨8, -3, 100⟩)) (.shr 2 (.shlI 4 (.lit ⟨6, 0, -63⟩)))) := by decide
 example : evalModel ⟨.nrst, .trp⟩ (.mul (.lit ⟨4, 0, 3⟩) (.shl 31 30 (.lit ⟨31, 0, -2⟩))) = .trap false ∧
     evalIdeal ⟨.nrst, .trp⟩ (.mul (.lit ⟨4, 0, 3⟩) (.shl 31 30 (.lit ⟨31, 0, -2⟩))) = .signal false := by decide +kernel
+
+
+/-! ## 7. every narrowest type, multi-word storage, built-in operands
+
+`TNum` = a static number together with the narrowest type of its instantiation; `TNum.InRange` = the range the type
+declares (`[−(2^D − 1), 2^D − 1]`, non-negative under an unsigned narrowest type).  `exactBinT` = the demanded result:
+value and exponent of `exactBin`, the digits of the elastic policy, the result narrowest type `resN`.
+The storage of `D` digits over the narrowest type `N` is `Static.storage N D`; everything below holds for whatever it
+returns, because the proofs use only `storage_twos_complement` — which is what property C10 establishes of the
+multi-word `wide_integer` (`storage_multiword_is_C10_format` identifies the format). -/
+
+/-- the storage rule returns a two's-complement type of the narrowest type's signedness with at least the requested
+digits (and at least those of the narrowest type) — the built-in integer `set_digits` selects, or the multi-word one -/
+theorem storage_twos_complement {n : IntTy} {d : Nat} {t : IntTy} (h : Static.storage n d = some t) :
+    t.signed = n.signed ∧ max n.digits d ≤ t.digits ∧ 8 ≤ t.bits := Static.storage_spec h
+
+/-- up to the widest built-in integer it is the storage of C05's elastic_integer … -/
+theorem storage_builtin {n : IntTy} {d : Nat} {t : IntTy} (h : Elastic.repTy d n = some t) :
+    Static.storage n d = some t := Static.storage_builtin h
+
+/-- … beyond it, it is the `N`-bit two's-complement integer, `N` = limb width × limb count, of the format
+`Wide.storage` assigns to `wide_integer<digits, Narrowest>` — the object of property C10 -/
+theorem storage_multiword_is_C10_format (n : IntTy) (d : Nat) (h : Elastic.repTy d n = none) (hb : n.bits ≠ 0) :
+    ∃ f : Wide.Fmt, Wide.storage (max n.digits d) n = .multi f ∧ f.w = n.bits ∧ f.signed = n.signed ∧
+      Static.storage n d = some ⟨f.N, f.signed⟩ := by
+  refine ⟨⟨n.bits, (max n.digits d + (if n.signed then 1 else 0) + n.bits - 1) / n.bits, n.signed⟩, ?_, rfl, rfl,
+    Static.storage_multiword h hb⟩
+  have hgt : max n.digits d > Wide.maxDigits n := by
+    have h' : Elastic.setDigits n.signed (max n.digits d) = none := h
+    unfold Wide.maxDigits
+    cases hs : n.signed <;> simp only [hs, Elastic.setDigits, Bool.false_eq_true, ite_false, ite_true] at h' ⊢ <;>
+      (repeat' split at h') <;> first | omega | (exact absurd h' (by simp))
+  simp only [Wide.storage, hgt, ite_true]
+
+-- 128 digits over `int`: five 32-bit limbs (129 bits needed), 160 bits; over `signed char`: 17 limbs, 136 bits;
+-- 128 unsigned digits fit the widest built-in; 129 do not
+example : Static.storage i32 128 = some ⟨160, true⟩ ∧ Static.storage i8 128 = some ⟨136, true⟩ ∧
+    Static.storage u32 128 = some u128 ∧ Static.storage u32 129 = some ⟨160, false⟩ ∧
+    Static.storage i32 192 = some ⟨224, true⟩ ∧ Static.storage i64 128 = some ⟨192, true⟩ ∧
+    Static.storage i32 127 = some i128 ∧ Static.storage u8 3 = some u8 := by decide
+
+/-- **`+ − *` for every narrowest type and digit count**: in-range operands of a well-formed instantiation give — no
+signal, no undefined behaviour — the exact result at the smaller exponent (`*`: the sum), in the digits the policy
+declares, in range of them (non-negative when both narrowest types are unsigned and the operator is not `−`) -/
+theorem binOp_exact_typed (c : Cfg) (op : BinOp) (hop : op = .add ∨ op = .sub ∨ op = .mul) (s t : TNum)
+    (hs : s.InRange) (ht : t.InRange) (hwf : ∀ m, binOpT c op s t ≠ .ill m) :
+    binOpT c op s t = .ok (exactBinT (rmode c.mode) op s t) ∧ (exactBinT (rmode c.mode) op s t).InRange := by
+  rcases hop with h | h | h <;> subst h
+  · rcases binOpT_add_spec c s t hs ht with h | ⟨m, h⟩
+    · exact h
+    · exact absurd h (hwf m)
+  · rcases binOpT_sub_spec c s t hs ht with h | ⟨m, h⟩
+    · exact h
+    · exact absurd h (hwf m)
+  · rcases binOpT_mul_spec c s t hs ht with h | ⟨m, h⟩
+    · exact h
+    · exact absurd h (hwf m)
+
+/-- **`/` for every narrowest type and digit count**: the quotient rounded as the rounding tag prescribes, in the
+dividend's digits, in range -/
+theorem div_rounded_typed (c : Cfg) (s t : TNum) (hs : s.InRange) (ht : t.InRange) (h0 : t.x.value ≠ 0)
+    (hwf : ∀ m, binOpT c .div s t ≠ .ill m) :
+    binOpT c .div s t = .ok ⟨resN .div s.n t.n, ⟨s.x.digits, s.x.exp - t.x.exp, roundDiv (rmode c.mode) s.x.value t.x.value⟩⟩ ∧
+      (exactBinT (rmode c.mode) .div s t).InRange := by
+  rcases binOpT_div_spec c s t hs ht h0 with h | ⟨m, h⟩
+  · exact ⟨h.1, h.2⟩
+  · exact absurd h (hwf m)
+
+/-- **unary minus**: exact, same digits, in the signed narrowest type of the same width -/
+theorem neg_exact_typed (t : TNum) (ht : t.InRange) (hwf : ∀ m, negT t ≠ .ill m) :
+    negT t = .ok ⟨⟨t.n.bits, true⟩, ⟨t.x.digits, t.x.exp, -t.x.value⟩⟩ ∧
+      (⟨⟨t.n.bits, true⟩, ⟨t.x.digits, t.x.exp, -t.x.value⟩⟩ : TNum).InRange := by
+  rcases negT_spec t ht with h | ⟨m, h⟩
+  · exact h
+  · exact absurd h (hwf m)
+
+/-- **comparisons** of operands of any (also different) narrowest signedness: by value at the smaller exponent -/
+theorem cmp_exact_typed (op : CmpOp) (s t : TNum) (hs : s.InRange) (ht : t.InRange) (hwf : ∀ m, cmpT op s t ≠ .ill m) :
+    cmpT op s t = .ok (cmpExact op (alignL s.x.exp t.x.exp s.x.value) (alignR s.x.exp t.x.exp t.x.value)) := by
+  rcases cmpT_spec op s t hs ht with h | ⟨m, h⟩
+  · exact h
+  · exact absurd h (hwf m)
+
+/-- **conversion / assignment to `static_number<D, E, R, O, N>`** from any narrowest type, outside the two open
+classes and for a source that is non-negative when `N` is unsigned: the rescaled (rounded) value if it fits `D` digits
+of `N`'s signedness, else the tag's reaction of the right polarity (saturation to `2^D − 1` / `−(2^D − 1)` / `0`) -/
+theorem convert_exact_or_signal_typed (c : Cfg) (N : IntTy) (D : Nat) (E : Int) (t : TNum) (ht : t.InRange)
+    (hneg : N.signed = false → 0 ≤ t.x.value) (hnd : ¬ KnownDefect c E t.x) (hwf : ∀ m, convertT c N D E t ≠ .ill m) :
+    convertT c N D E t = (narrowTo c N.signed D (rescale (rmode c.mode) E t.x.exp t.x.value) >>= fun v =>
+        .ok ⟨N, ⟨D, E, v⟩⟩) ∧
+      ∀ z, convertT c N D E t = .ok z → z.InRange := by
+  rcases convertT_core c N D E t ht hneg hnd with h | ⟨m, h⟩
+  · refine ⟨h, fun z hz => ?_⟩
+    rw [h] at hz
+    cases hv : narrowTo c N.signed D (rescale (rmode c.mode) E t.x.exp t.x.value) with
+    | ok w =>
+      rw [hv] at hz; simp only [Res.bind_ok] at hz; cases hz
+      exact narrowTo_inRange c N.signed D _ w hv
+    | _ => rw [hv] at hz; cases hz
+  · exact absurd h (hwf m)
+
+/-- the overflow-checked narrowing, spelled out: the value itself when it fits; else the tag's reaction -/
+theorem narrowTo_fits (c : Cfg) (sg : Bool) (D : Nat) {v : Int} (h : Fits D sg v) : narrowTo c sg D v = .ok v :=
+  Static.narrowTo_fits c sg D h
+
+/-- the hypothesis `hneg` is needed: `from_value` converts the source into the destination's narrowest type *before*
+the rescaling, so `−0.25` assigned to an unsigned-narrowest `static_number<6, 0>` under the nearest rounding tag is
+flagged (a spurious signal under the throwing tag — not a silent error — and `0`, the correct value, under
+saturation) although it rounds to `0` -/
+theorem convert_negative_to_unsigned_flagged_first :
+    convertT ⟨.nrst, .thr⟩ u32 6 0 ⟨i32, ⟨13, -2, -1⟩⟩ = .throws false ∧
+    rescale (rmode .nrst) 0 (-2) (-1) = 0 ∧
+    convertT ⟨.nrst, .sat⟩ u32 6 0 ⟨i32, ⟨13, -2, -1⟩⟩ = .ok ⟨u32, ⟨6, 0, 0⟩⟩ := by decide
+
+-- non-vacuity: unsigned and narrow narrowest types, multi-word results reached from narrower operands
+example : binOpT ⟨.nrst, .thr⟩ .sub ⟨u32, ⟨8, 0, 5⟩⟩ ⟨u32, ⟨8, 0, 7⟩⟩ = .ok ⟨i32, ⟨8, 0, -2⟩⟩ ∧
+    binOpT ⟨.nrst, .thr⟩ .add ⟨u8, ⟨4, 0, 5⟩⟩ ⟨u8, ⟨6, 0, 3⟩⟩ = .ok ⟨u8, ⟨7, 0, 8⟩⟩ ∧
+    binOpT ⟨.tpi, .sat⟩ .div ⟨u8, ⟨8, -2, 21⟩⟩ ⟨u8, ⟨8, 1, 8⟩⟩ = .ok ⟨u8, ⟨8, -3, 3⟩⟩ ∧
+    negT ⟨u16, ⟨16, 0, 65535⟩⟩ = .ok ⟨i16, ⟨16, 0, -65535⟩⟩ ∧
+    cmpT .lt ⟨i32, ⟨8, 0, -1⟩⟩ ⟨u32, ⟨32, 0, 4294967295⟩⟩ = .ok true := by decide
+-- `static_integer<64>{2^64 − 1}` squared is the exact `static_integer<128>` (five 32-bit limbs), its cube has 192 digits
+example : binOpT ⟨.nrst, .thr⟩ .mul ⟨i32, ⟨64, 0, 18446744073709551615⟩⟩ ⟨i32, ⟨64, 0, 18446744073709551615⟩⟩
+      = .ok ⟨i32, ⟨128, 0, 340282366920938463426481119284349108225⟩⟩ ∧
+    binOpT ⟨.nrst, .thr⟩ .mul ⟨i32, ⟨128, 0, 340282366920938463426481119284349108225⟩⟩ ⟨i32, ⟨64, 0, -18446744073709551615⟩⟩
+      = .ok ⟨i32, ⟨192, 0, -6277101735386680762814942322444851025767571854389858533375⟩⟩ ∧
+    binOpT ⟨.nrst, .thr⟩ .div ⟨i32, ⟨128, 0, 340282366920938463426481119284349108225⟩⟩ ⟨i32, ⟨64, 0, 18446744073709551615⟩⟩
+      = .ok ⟨i32, ⟨128, 0, 18446744073709551615⟩⟩ ∧
+    cmpT .gt ⟨i32, ⟨128, 0, 340282366920938463426481119284349108225⟩⟩ ⟨i32, ⟨64, 0, 18446744073709551615⟩⟩ = .ok true := by
+  decide
+example : (⟨u32, ⟨8, 0, 5⟩⟩ : TNum).InRange ∧ ¬ (⟨u32, ⟨8, 0, -5⟩⟩ : TNum).InRange ∧
+    (∀ m, binOpT ⟨.nrst, .thr⟩ .sub ⟨u32, ⟨8, 0, 5⟩⟩ ⟨u32, ⟨8, 0, 7⟩⟩ ≠ .ill m) := by
+  refine ⟨by decide, by decide, fun m h => ?_⟩
+  have e : binOpT ⟨.nrst, .thr⟩ .sub ⟨u32, ⟨8, 0, 5⟩⟩ ⟨u32, ⟨8, 0, 7⟩⟩ = .ok ⟨i32, ⟨8, 0, -2⟩⟩ := by decide
+  rw [e] at h; cases h
+
+/-! ### a static number combined with a built-in integer
+
+`from_value` turns the built-in operand `T` into `elastic_integer<digits T, set_width_t<T, width N>>` (`Opnd.raw`):
+its own signedness, at the width of the static operand's narrowest type.  `Opnd.OK`: a static operand is in range, a
+built-in operand is any value of its type except the most negative one of a signed type. -/
+
+/-- **`+ −` with a built-in operand on either side, equal exponents** (a bare static_integer): the exact sum /
+difference, whatever the signedness of the built-in operand and of the narrowest type -/
+theorem mixed_addsub_exact (c : Cfg) (n : IntTy) (op : BinOp) (hop : op = .add ∨ op = .sub) (s t : Opnd)
+    (hs : s.OK) (ht : t.OK) (he : s.exp = t.exp) (hwf : ∀ m, binOpO c n op s t ≠ .ill m) :
+    binOpO c n op s t = .ok (exactBinT (rmode c.mode) op (s.raw n) (t.raw n)) ∧
+      (exactBinT (rmode c.mode) op (s.raw n) (t.raw n)).InRange := by
+  rw [binOpO_addsub_same_exp c n op hop s t he] at hwf ⊢
+  exact binOp_exact_typed c op (by rcases hop with h | h <;> simp [h]) _ _ (Opnd.raw_inRange n hs) (Opnd.raw_inRange n ht) hwf
+
+/-- **`+ −` with a built-in operand, different exponents** (a static_number): exact at the smaller exponent and in
+range, **provided the scaling of the built-in operand fits its own promoted type** (`Opnd.ScaleFits`) -/
+theorem mixed_addsub_aligned_exact (c : Cfg) (n : IntTy) (op : BinOp) (hop : op = .add ∨ op = .sub) (s t : Opnd)
+    (hs : s.OK) (ht : t.OK) (he : s.exp ≠ t.exp)
+    (hfs : s.ScaleFits (s.exp - min s.exp t.exp).toNat) (hft : t.ScaleFits (t.exp - min s.exp t.exp).toNat)
+    (hwf : ∀ m, binOpO c n op s t ≠ .ill m) :
+    ∃ z, binOpO c n op s t = .ok z ∧ z.InRange ∧ z.x.exp = min s.exp t.exp ∧
+      z.x.value = (if op = .add then s.value * 2^(s.exp - min s.exp t.exp).toNat + t.value * 2^(t.exp - min s.exp t.exp).toNat
+                   else s.value * 2^(s.exp - min s.exp t.exp).toNat - t.value * 2^(t.exp - min s.exp t.exp).toNat) := by
+  rcases binOpO_addsub_aligned c n op hop s t hs ht he hfs hft with h | ⟨m, h⟩
+  · exact h
+  · exact absurd h (hwf m)
+
+/-- **`*` with a built-in operand** (operands of at least two digits: the overflow layer's digit test is then
+false): the exact product -/
+theorem mixed_mul_exact (c : Cfg) (n : IntTy) (s t : Opnd) (hs : s.OK) (ht : t.OK)
+    (h1 : 2 ≤ (s.raw n).x.digits) (h2 : 2 ≤ (t.raw n).x.digits) (hwf : ∀ m, binOpO c n .mul s t ≠ .ill m) :
+    binOpO c n .mul s t = .ok (exactBinT (rmode c.mode) .mul (s.raw n) (t.raw n)) ∧
+      (exactBinT (rmode c.mode) .mul (s.raw n) (t.raw n)).InRange := by
+  rw [binOpO_mul_eq c n s t h1 h2] at hwf ⊢
+  exact binOp_exact_typed c .mul (.inr (.inr rfl)) _ _ (Opnd.raw_inRange n hs) (Opnd.raw_inRange n ht) hwf
+
+/-- **`/` with a built-in operand**: the correctly rounded quotient, outside the one input the overflow layer flags
+although the quotient fits (`mixed_div_spurious_signal`) -/
+theorem mixed_div_rounded (c : Cfg) (n : IntTy) (s t : Opnd) (hs : s.OK) (ht : t.OK) (h0 : t.value ≠ 0)
+    (hsp : ¬ (s.isBuiltinSigned = true ∧ (t.raw n).x.value = -1 ∧ (s.raw n).x.value = -(2^(s.raw n).x.digits - 1 : Int)))
+    (hwf : ∀ m, binOpO c n .div s t ≠ .ill m) :
+    binOpO c n .div s t = .ok ⟨resN .div (s.raw n).n (t.raw n).n,
+        ⟨(s.raw n).x.digits, s.exp - t.exp, roundDiv (rmode c.mode) s.value t.value⟩⟩ := by
+  rw [binOpO_div_eq c n s t hsp] at hwf ⊢
+  have h := (div_rounded_typed c _ _ (Opnd.raw_inRange n hs) (Opnd.raw_inRange n ht)
+    (by rw [Opnd.raw_value]; exact h0) hwf).1
+  rw [h, Opnd.raw_exp, Opnd.raw_exp, Opnd.raw_value, Opnd.raw_value]
+
+/-- **comparisons with a built-in operand** on either side, equal exponents: by value — in particular a negative
+built-in value is below every value of an unsigned-narrowest static number -/
+theorem mixed_cmp_exact (n : IntTy) (op : CmpOp) (s t : Opnd) (hs : s.OK) (ht : t.OK) (he : s.exp = t.exp)
+    (hwf : ∀ m, cmpO n op s t ≠ .ill m) : cmpO n op s t = .ok (cmpExact op s.value t.value) := by
+  rcases cmpO_same_exp n op s t hs ht he with h | ⟨m, h⟩
+  · exact h
+  · exact absurd h (hwf m)
+
+-- `static_integer<8, nearest, throwing, unsigned>{5}` against negative `int`s, on either side
+example : cmpO u32 .gt (.stat ⟨u32, ⟨8, 0, 5⟩⟩) (.builtin i32 (-1)) = .ok true ∧
+    cmpO u32 .lt (.builtin i32 (-1)) (.stat ⟨u32, ⟨8, 0, 5⟩⟩) = .ok true ∧
+    binOpO ⟨.nrst, .thr⟩ u32 .add (.stat ⟨u32, ⟨8, 0, 5⟩⟩) (.builtin i32 (-7)) = .ok ⟨i32, ⟨32, 0, -2⟩⟩ ∧
+    binOpO ⟨.nrst, .thr⟩ u32 .mul (.builtin i32 (-3)) (.stat ⟨u32, ⟨8, 0, 5⟩⟩) = .ok ⟨i32, ⟨39, 0, -15⟩⟩ ∧
+    binOpO ⟨.nrst, .thr⟩ u32 .div (.builtin i32 (-20)) (.stat ⟨u32, ⟨8, 0, 5⟩⟩) = .ok ⟨i32, ⟨31, 0, -4⟩⟩ ∧
+    binOpO ⟨.nrst, .thr⟩ u32 .add (.stat ⟨u32, ⟨8, -2, 21⟩⟩) (.builtin i32 (-7)) = .ok ⟨i32, ⟨32, -2, -7⟩⟩ ∧
+    binOpO ⟨.nrst, .thr⟩ u8 .sub (.stat ⟨u8, ⟨4, 0, 5⟩⟩) (.builtin i64 7) = .ok ⟨i8, ⟨64, 0, -2⟩⟩ := by decide
+example : (Opnd.builtin i32 (-7)).OK ∧ (Opnd.stat ⟨u32, ⟨8, 0, 5⟩⟩).OK ∧ ¬ (Opnd.builtin i32 (-2147483648)).OK ∧
+    (Opnd.builtin i32 (-7)).ScaleFits 2 ∧ ¬ (Opnd.builtin i32 1073741824).ScaleFits 2 := by decide
+
+/-- open finding `C11.builtin_operand_scaled_in_its_own_type`: the hypothesis `ScaleFits` is needed.  Against a
+static_number with a negative exponent the scaled layer multiplies the built-in operand by `2^−E` in the operand's
+own type: `static_number<8, −2>{5.25} + 0x40000000` executes a signed `int` overflow (the optimised program returns
+`5.25`), `… < 0x40000000` likewise, and with an `unsigned` operand `0xC0000000u` the product wraps **silently**: the
+sum is `5.25`, in range, no signal under any tag. -/
+theorem builtin_operand_scaled_in_its_own_type_refuted :
+    binOpO ⟨.nrst, .thr⟩ i32 .add (.stat ⟨i32, ⟨8, -2, 21⟩⟩) (.builtin i32 1073741824) = .ub .signedOverflow ∧
+    cmpO i32 .lt (.stat ⟨i32, ⟨8, -2, 21⟩⟩) (.builtin i32 1073741824) = .ub .signedOverflow ∧
+    binOpO ⟨.nrst, .thr⟩ u32 .add (.stat ⟨u32, ⟨8, -2, 21⟩⟩) (.builtin u32 3221225472) = .ok ⟨u32, ⟨33, -2, 21⟩⟩ ∧
+    (21 : Int) ≠ 21 + 3221225472 * 2^2 := by decide
+
+/-- open finding `C11.builtin_operand_most_negative`: the hypothesis `Opnd.OK` (not the most negative value) is
+needed.  `from_value` gives `int` the 31-digit symmetric range, which does not hold `INT_MIN`:
+`INT_MIN / static_integer<8>{−1}` executes the undefined built-in division (no overflow test fires: the layer
+compares with the *symmetric* lowest), and `static_integer<1, neg_inf, trapping, signed char>{−1} * (signed char)−128`
+returns `−128` silently — the overflow test divides the limit by the operand under the rounding tag. -/
+theorem builtin_operand_most_negative_refuted :
+    binOpO ⟨.nrst, .thr⟩ i32 .div (.builtin i32 (-2147483648)) (.stat ⟨i32, ⟨8, 0, -1⟩⟩) = .ub .divOverflow ∧
+    binOpO ⟨.ninf, .trp⟩ i8 .mul (.stat ⟨i8, ⟨1, -1, -1⟩⟩) (.builtin i8 (-128)) = .ok ⟨i8, ⟨7, -1, -128⟩⟩ ∧
+    ¬ (⟨i8, ⟨7, -1, -128⟩⟩ : TNum).InRange ∧ (-128 : Int) ≠ (-1) * (-128) := by decide
+
+/-- the hypothesis `hsp` of `mixed_div_rounded` is needed: `−2147483647 / static_integer<8>{−1}` is flagged (the
+overflow layer compares the built-in dividend with the symmetric lowest of the result type) although the quotient
+`2147483647` fits — a spurious signal, not a silent error; under saturation the reaction is the correct value -/
+theorem mixed_div_spurious_signal :
+    binOpO ⟨.nrst, .thr⟩ i32 .div (.builtin i32 (-2147483647)) (.stat ⟨i32, ⟨8, 0, -1⟩⟩) = .throws true ∧
+    binOpO ⟨.nrst, .sat⟩ i32 .div (.builtin i32 (-2147483647)) (.stat ⟨i32, ⟨8, 0, -1⟩⟩) = .ok ⟨i32, ⟨31, 0, 2147483647⟩⟩ := by
+  decide
 
 /-! ## construction from floating point: the overflow test against the declared limits
 
